@@ -241,6 +241,12 @@ struct PgmClass {
                         size_t win_hi = lr.predicted + R + 2; // exclusive
                         if (lr.scan_start != win_lo) { out.fail("window-start", "scan does not start at predicted-(EpsRec+1):" + where, "Q " + key_text(q)); break; }
                         if (truth < win_lo || truth >= win_hi) { out.fail("segment-outside-window", "responsible segment outside [pos-(EpsRec+1), pos+EpsRec+2):" + where, "Q " + key_text(q)); break; }
+                        if (lr.window_end) { // binary-search path: the searched window itself must be the bounded one
+                            if (lr.window_end > win_hi || lr.window_end - lr.scan_start > 2 * R + 3) {
+                                out.fail("window-too-wide", "binary-search window [" + std::to_string(lr.scan_start) + "," + std::to_string(lr.window_end) + ") exceeds [pos-(EpsRec+1), pos+EpsRec+2):" + where, "Q " + key_text(q));
+                                break;
+                            }
+                        }
                         size_t visited = lr.chosen - lr.scan_start + 1;
                         if (visited > 2 * R + 3) { out.fail("visited-too-many", "more than 2*EpsRec+3 segments inspected:" + where, "Q " + key_text(q)); break; }
                         st.max("max_visited_per_level", visited);
